@@ -81,9 +81,12 @@ class IntervalRegressor(BaseEstimator, RegressorMixin):
         )
         verbose = 1 if self.verbose == "tqdm" else (1 if self.verbose else 0)
 
-        def _fit_piecewise_estimator(i, est, X, y, sample_weight, alpha):
-            new_size = int(X.shape[0] * alpha + 0.5)
-            rnd = numpy.random.randint(0, X.shape[0], new_size)
+        # the resamples are drawn before the jobs are dispatched: with threads,
+        # the order of the calls to the global generator depends on the schedule
+        new_size = int(X.shape[0] * self.alpha + 0.5)
+        rnds = [numpy.random.randint(0, X.shape[0], new_size) for _ in estimators]
+
+        def _fit_piecewise_estimator(i, est, X, y, sample_weight, rnd):
             Xr = X[rnd]
             yr = y[rnd]
             sr = sample_weight[rnd] if sample_weight is not None else None
@@ -93,7 +96,7 @@ class IntervalRegressor(BaseEstimator, RegressorMixin):
             n_jobs=self.n_jobs, verbose=verbose, prefer="threads"
         )(
             delayed(_fit_piecewise_estimator)(
-                i, estimators[i], X, y, sample_weight, self.alpha
+                i, estimators[i], X, y, sample_weight, rnds[i]
             )
             for i in loop
         )
